@@ -2,6 +2,7 @@ mod aisle;
 mod calls;
 mod docs;
 mod project;
+mod shared;
 mod subsets;
 mod variants;
 mod fraction;
@@ -22,6 +23,7 @@ fn main() {
         "docs" => docs::main(&args[1..]),
         "subsets" => subsets::main(&args[1..]),
         "meta" => meta::main(&args[1..]),
+        "shared" => shared::main(&args[1..]),
         "variants" => variants::main(&args[1..]),
         "fraction" => fraction::main(&args[1..]),
         "selfcheck" => println!("ok"),
